@@ -115,6 +115,8 @@ NoOpts == [ack |-> FALSE, xme |-> "", xl |-> <<>>, el |-> <<>>, hx |-> FALSE, he
 \* violated the protocol) and, for calls, the peer at the other end announced it too
 PptD(o) == IF o.ppt # "" THEN {<<"ppt_scheme", o.ppt>>} ELSE {}
 
+UnserTag(p) == p \in {"u" \o ToString(n) : n \in 1..64}
+
 PubIdent(S, p) == {<<"publisher", ToString(SidOf(S, p))>>}
                   \cup {<<"publisher_" \o a, Attr(S, p, a)>> : a \in {aa \in {"authid", "authrole"} : Present(S, p, aa)}}
 
@@ -128,7 +130,10 @@ PublishFx(S, pubsess, topic, o, pubid, fields, disclose) ==
       recv   == {r \in Joined(S) \X keys :
                    /\ r[1] \in S.subs[r[2]].members
                    /\ ~(r[1] = pubsess /\ exclMe)
-                   /\ Allowed(S, r[1], o)}
+                   /\ Allowed(S, r[1], o)
+                   \* a payload no serializer can encode (tags u1, u2, ...: only an in-process publisher can
+                   \* hand one over) is dropped, as a whole, for receivers on a serialising transport (C15)
+                   /\ ~(UnserTag(fields.p) /\ Attr(S, r[1], "tr") # "")}
       ev(r)  == [to |-> r[1],
                  m  |-> [fields EXCEPT !.k = "EVENT", !.a = S.subs[r[2]].id, !.b = pubid,
                             !.u = IF r[2][2] = "exact" THEN <<>> ELSE topic,
